@@ -575,7 +575,10 @@ Inductive event :=
 | EDeliver (m : msg)                      (* WorkerLoop: ToConsensusMessage + filter.HandleConsensusRawMessage *)
 | EElection (h v : N)                     (* main loop's trigger handling, then the worker's stale check + callback *)
 | ESync (prev : option block)             (* main loop's UpdateState handling, then worker.handleUpdateState *)
-| EGarbage.                               (* content bytes that are none of the five kinds or that the readers panic on: dropped by parseConsensusMessage *)
+| EGarbage                                (* content bytes that are none of the five kinds or that the readers panic on: dropped by parseConsensusMessage *)
+| ESyncMain (prev : option block)         (* the main loop's half of UpdateState alone: the block waits in the worker's channel *)
+| ESyncWorker (prev : option block).      (* the worker takes that block from its channel: handleUpdateState (no main-loop iteration) *)
+(* between an ESyncMain and its ESyncWorker the worker may handle anything else: the interleaving of the two loops *)
 
 Definition set_maxsync (x : N) (n : node) : node :=
   {| n_h := n_h n; n_v := n_v n; n_wm := n_wm n; n_shut := n_shut n; n_maxsync := Some x; n_hasterm := n_hasterm n;
@@ -583,11 +586,25 @@ Definition set_maxsync (x : N) (n : node) : node :=
 
 Definition fuel_of (n : node) : nat := S (S (length (n_cache n))).
 
+(* the main loop's half of an UpdateState: de-duplication, cancel what is older, refuse if shutting down *)
+Definition sync_main (n : node) (prev : option block) : node * bool :=
+  let hb := match prev with Some b => b_height b | None => 0 end in
+  let go := let n1 := cancel_older (wrap64 (hb + 1), 0) n in
+            if negb (ctx_for n1 (wrap64 (hb + 1), 0)) then (n1, false) else (set_maxsync hb n1, true) in
+  match n_maxsync n with
+  | Some mx => if N.leb hb mx then (n, false) else go
+  | None => go
+  end.
+(* the worker's half: handleUpdateState *)
+Definition sync_worker (fuel : nat) (c : ncfg) (n : node) (prev : option block) : node :=
+  let hb := match prev with Some b => b_height b | None => 0 end in
+  if N.leb (n_h n) hb then new_round fuel c n prev false else n.
+
 Definition step (c : ncfg) (n : node) (e : event) : node :=
   let fuel := fuel_of n in
   let next := fun n' b => new_round fuel c n' (Some b) true in
-  (* every main-loop iteration starts with GcOldContexts *)
-  let n := cancel_older (n_h n, 0) n in
+  (* every main-loop iteration starts with GcOldContexts; the worker's half of a sync is no main-loop iteration *)
+  let n := match e with ESyncWorker _ => n | _ => cancel_older (n_h n, 0) n end in
   match e with
   | EGarbage => n
   | EDeliver m => filter_handle c next n m
@@ -599,20 +616,9 @@ Definition step (c : ncfg) (n : node) (e : event) : node :=
       | Some t => write_back (move_to_next_leader c (n_wm n1) (n_shut n1) (tc_of n1 t) h v) n1
       | None => n1
       end
-  | ESync prev =>
-      let hb := match prev with Some b => b_height b | None => 0 end in
-      match n_maxsync n with
-      | Some mx => if N.leb hb mx then n else
-          let n1 := cancel_older (wrap64 (hb + 1), 0) n in
-          if negb (ctx_for n1 (wrap64 (hb + 1), 0)) then n1 else
-          let n2 := set_maxsync hb n1 in
-          if N.leb (n_h n2) hb then new_round fuel c n2 prev false else n2
-      | None =>
-          let n1 := cancel_older (wrap64 (hb + 1), 0) n in
-          if negb (ctx_for n1 (wrap64 (hb + 1), 0)) then n1 else
-          let n2 := set_maxsync hb n1 in
-          if N.leb (n_h n2) hb then new_round fuel c n2 prev false else n2
-      end
+  | ESync prev => let r := sync_main n prev in if snd r then sync_worker fuel c (fst r) prev else fst r
+  | ESyncMain prev => fst (sync_main n prev)
+  | ESyncWorker prev => sync_worker fuel c n prev
   end.
 
 Definition clear_out (n : node) : node :=
